@@ -156,6 +156,23 @@ def c_shadow(ctx, args):
                 return {'kind': 'oracle', 'where': 'np:snapshot is not stabilized (up to sign) by the back-evolved basis', 'observed': st, 'expected': basis}
             if not ctx.search:
                 pass
+        if 'mcircuit' not in kind:
+            # the measurement circuit goes on being built after the shadow was used: later snapshots follow the circuit as it is THEN
+            rng3 = __import__('random').Random(seed + 5)
+            extra = [NP.mk_gate(gen.rgate(rng3, ctx.model, n, kinds=('gen', 'named'))) for _ in range(2)]
+            for g_ in extra:
+                circ.take(g_)
+            if kind.endswith('compiled'):
+                circ.compile()          # (the documented duty of whoever compiled it)
+            z = pc.zero_state(n)
+            for ly in list(circ.layers_backward()):
+                for g_ in reversed(getattr(ly, 'gates', [])):
+                    g_.backward(z)
+            basis2 = strings_rref([r[0] for r in S.st_list(z)[0][:n]])
+            for sn in shadow.snapshots(2):
+                st = S.st_list(sn)
+                if st[1] != 0 or strings_rref([r[0] for r in st[0][:n]]) != basis2:
+                    return {'kind': 'oracle', 'where': 'np:after the circuit was extended, a snapshot is not stabilized by the back-evolved basis of the circuit as it is now', 'observed': st, 'expected': basis2, 'tags': ['shadow_extend']}
     return None
 
 
